@@ -92,6 +92,11 @@ CLAIMED["C14"] = dict(
    text="Every directed graph on 1-2 libraries with every assignment of 7 node healths, and every graph on 3 libraries with at most one unhealthy node (thorough: every assignment), is materialised as library files under a program directory (with same-named decoys of different value in the working directory) and as registered sources; every history of import attempts on one interpreter is executed. Each attempt must succeed iff the reference loader finds neither a reachable cycle nor a reachable unhealthy library, and otherwise fail with one of the corresponding error kinds - independently of earlier attempts; after every attempt the in-progress set (hook H2) must be empty and the exports of successfully imported libraries must hold the program-directory values. A configuration that kills or hangs its worker process is a violation (termination).",
    note="supervised workers (watchdog 10 s, rlimits); hook H2 verif_in_progress; coverage accounting requires every configuration exactly once",
    design="7/C14")
+CLAIMED["C19"] = dict(
+   technique="exhaustive enumeration of all interleavings of two programs' forms over two instances on one thread, for all pairs from two program pools, compared with each program run alone",
+   text="For every pair of programs from two pools of 12 (16) programs with colliding names (definitions, assignments, stateful closures, vector mutation, define-syntax of new, equal and bundled keywords, failing imports, run-time errors, uses of derived forms) every interleaving of A's forms on instance 1 with B's forms on instance 2 is executed on a fresh thread; both programs' per-form results must equal those of the program run alone, the in-progress sets (hook H2) must be empty, and after every step a newly created third instance must evaluate a form built from let/cond/when/or correctly.",
+   note="sequential interleavings of two operation lists on one thread: the crate is single-threaded (Rc/RefCell), there are no scheduler interleavings to explore",
+   design="7/C19")
 NOT_YET = "check not built yet (build in progress, see DESIGN.md section 12)"
 NA = {}
 
